@@ -170,6 +170,20 @@ theorem C11_regression_3 :
     resolveAll false n!"int1" sch2 [] (stripSel n!"int1" (aliasesOf tableNamedLikeDb) tableNamedLikeDb) =
       [.ok 0 0 n!"int1" n!"id"] := by decide
 
+/-- `select int1.id from (select * from int1.int1) as int1 join int1.s as a …`: a DERIVED table aliased like the
+integration.  For name resolution a derived table is a CTE body plus a bare reference to its alias, so its alias is among
+`aliasesOf`; a planner that forgets aliases of sub-selects (names = `[a]` here) cuts `int1.id` to an ambiguous `id` -/
+def derivedQuery : Sel :=
+  .mk [⟨[n!"int1"], none⟩, ⟨[n!"int1", n!"s"], some n!"a"⟩] [[n!"int1", n!"id"], [n!"a", n!"y"]] .nil
+    (.cons (.mk [⟨[n!"INT1", n!"int1"], none⟩] [] .nil .nil) .nil)
+
+theorem C11_regression_4 :
+    resolveAll true n!"int1" sch2 [] derivedQuery = [.ok 0 0 n!"int1" n!"id", .ok 0 1 n!"s" n!"y"] ∧
+    resolveAll false n!"int1" sch2 [] (stripSel n!"int1" (aliasesOf derivedQuery) derivedQuery) =
+      resolveAll true n!"int1" sch2 [] derivedQuery ∧
+    resolveAll false n!"int1" sch2 [] (stripSel n!"int1" [n!"a"] derivedQuery) = [.ambiguous, .ok 0 1 n!"s" n!"y"] := by
+  decide
+
 /-- `select int1.x from int1.t` — nothing is called `int1`, the reference denotes nothing in the original, but after
 the cut it denotes `t.x`: `keeps` cannot be strengthened to equality of the result lists without a hypothesis -/
 def danglingQuery : Sel := .mk [⟨[n!"int1", n!"t"], none⟩] [[n!"int1", n!"x"]] .nil .nil
